@@ -55,6 +55,14 @@ Theorem C13_topup : forall n_min rank_other l, 2 * n_min <= length l -> Permutat
   (enough n_min l = true -> l' = l) /\ (enough n_min l = false -> count (small_label l) l' = n_min).
 Proof. exact topup_ok. Qed.
 Print Assumptions C13_topup.
+(* hence the halves cut out of an ellipsoid that may be split: the size guard of the record model (`split_go` rejects a
+   partition with a half below n_min) never fires on labels produced by the repaired rule *)
+Theorem C13_topup_halves : forall (A : Type) n_min rank_other (l0 : list bool) (pts : list A),
+  length l0 = length pts -> 2 * n_min <= length pts -> Permutation rank_other (others (small_label l0) l0) ->
+  let labels := topup n_min rank_other l0 in
+  length labels = length pts /\ n_min <= length (fmask labels pts) /\ n_min <= length (fmask (map negb labels) pts).
+Proof. exact @topup_halves. Qed.
+Print Assumptions C13_topup_halves.
 (* regression witness: the rule as found (first n_min entries of the ranking of ALL points) strips the larger cluster *)
 Theorem C13_topup_asis_refuted : exists n_min rank_all l, 2 * n_min <= length l /\ Permutation rank_all (seq 0 (length l)) /\
   count false (topup_asis n_min rank_all l) < n_min.
